@@ -10,3 +10,6 @@ func VerifInstall(y, spawn, enter func(string), exit func(), ev func(string, str
 	verifhook.YFn, verifhook.SpawnFn, verifhook.EnterFn, verifhook.ExitFn = y, spawn, enter, exit
 	verifhook.EvFn, verifhook.PollFn, verifhook.OrderFn = ev, poll, order
 }
+
+// VerifInstallEvP installs the callback for events that carry an object identity.
+func VerifInstallEvP(evp func(string, any, string)) { verifhook.EvPFn = evp }
